@@ -285,7 +285,7 @@ def execute_direct(plan: dict) -> dict:
                     want_keys.add(key)
                     have = table.routes.get(key)
                     nlri_len = len(R.enc_prefix(r['p'])) + (4 if neg['addpath'] else 0) + (3 * len(r.get('labels', []))) + (8 if r.get('rd') else 0)
-                    slack = room - overhead[r['fam']] - nlri_len
+                    slack = room - overhead[r['fam']] - nlri_len - (12 if r['fam'] == 'v4l' and ':' in r['nh'] else 0)  # an IPv6 next hop (RFC 8950) is 12 bytes longer
                     if slack < -1:
                         probes['over_limit_routes'] += 1
                         if have is not None:
